@@ -418,7 +418,6 @@ int32_t jls_raw_chunk_scan(struct jls_raw_s * self) {
         if ((offset + (int64_t) sz) > offset_end) {
             sz = offset_end - offset;
         }
-        size_t sz_block = sz;
         jls_bk_fread(&self->backend, buffer, (unsigned const) sz);
         while (sz >= sizeof(struct jls_chunk_header_s)) {
             struct jls_chunk_header_s * hdr = (struct jls_chunk_header_s *) b;
@@ -430,7 +429,10 @@ int32_t jls_raw_chunk_scan(struct jls_raw_s * self) {
             b += HEADER_ALIGN;
             offset += HEADER_ALIGN;
         }
-        offset += sz_block - sizeof(struct jls_chunk_header_s) + 8;
+        // offset is now the first position not yet checked; the next block starts there.
+        if ((offset + (int64_t) sizeof(struct jls_chunk_header_s)) > offset_end) {
+            break;  // no room left for another chunk header
+        }
     }
     return JLS_ERROR_NOT_FOUND;
 }
